@@ -84,7 +84,11 @@ class PartHandler(PartFlowController):
         self._next_cycle_time_offset += offset
 
     def notify_upstream_of_available_space(self):
-        self._set_waiting_for_part(True)
+        if self._part == None and self._output == None:
+            # Only a PartHandler that holds no Part starts waiting for
+            # one; the notification is also sent when the input is
+            # unblocked while a Part is still being worked on.
+            self._set_waiting_for_part(True)
         super().notify_upstream_of_available_space()
 
     def space_available_downstream(self):
